@@ -7,8 +7,9 @@ namespace Juno.C03
 /-- A loop over a Go map whose step only changes the cell under the entry's key. -/
 theorem foldl_pointwise {M κ ρ γ : Type} (get : M → κ → ρ) (K : Nat → κ)
     (hK : ∀ x y, K x = K y → x = y) (f : Nat → ρ → γ → ρ) (step : M → Nat × γ → M)
-    (hstep : ∀ m p y, (y = K p.1 → get (step m p) y = f p.1 (get m y) p.2) ∧ (y ≠ K p.1 → get (step m p) y = get m y))
-    (l : List (Nat × γ)) (hnd : (l.map (·.1)).Nodup) (m : M) (x : Nat) :
+    (l : List (Nat × γ))
+    (hstep : ∀ m p, p ∈ l → ∀ y, (y = K p.1 → get (step m p) y = f p.1 (get m y) p.2) ∧ (y ≠ K p.1 → get (step m p) y = get m y))
+    (hnd : (l.map (·.1)).Nodup) (m : M) (x : Nat) :
     get (l.foldl step m) (K x) = match alook l x with
       | some v => f x (get m (K x)) v
       | none => get m (K x) := by
@@ -18,26 +19,24 @@ theorem foldl_pointwise {M κ ρ γ : Type} (get : M → κ → ρ) (K : Nat →
     obtain ⟨k, v⟩ := p
     simp only [List.map_cons, List.nodup_cons] at hnd
     simp only [List.foldl_cons]
-    rw [ih hnd.2]
+    rw [ih (fun m p hp => hstep m p (List.mem_cons_of_mem _ hp)) hnd.2]
     by_cases hk : k = x
     · subst hk
       have : alook r k = none := (alook_eq_none_iff r k).mpr hnd.1
       simp only [this, alook, if_true]
-      exact (hstep m (k, v) (K k)).1 rfl
+      exact (hstep m (k, v) List.mem_cons_self (K k)).1 rfl
     · have hne : K x ≠ K k := fun e => hk (hK _ _ e).symm
       simp only [alook, hk, if_false]
-      rw [(hstep m (k, v) (K x)).2 hne]
+      rw [(hstep m (k, v) List.mem_cons_self (K x)).2 hne]
 
-theorem foldl_pointwise_other {M κ ρ γ : Type} (get : M → κ → ρ) (K : Nat → κ)
-    (step : M → Nat × γ → M)
-    (hstep : ∀ m p y, y ≠ K p.1 → get (step m p) y = get m y)
-    (l : List (Nat × γ)) (m : M) (y : κ) (hy : ∀ x, y ≠ K x) :
-    get (l.foldl step m) y = get m y := by
+/-- a loop none of whose steps changes an observation leaves it as it was -/
+theorem foldl_frame {M α ρ : Type} (get : M → ρ) (step : M → α → M) (l : List α)
+    (h : ∀ m x, x ∈ l → get (step m x) = get m) (m : M) : get (l.foldl step m) = get m := by
   induction l generalizing m with
   | nil => rfl
-  | cons p r ih =>
+  | cons x r ih =>
     simp only [List.foldl_cons]
-    rw [ih, hstep m p y (hy p.1)]
+    rw [ih (fun m y hy => h m y (List.mem_cons_of_mem _ hy)), h m x List.mem_cons_self]
 
 /-! ### contract records of the new backend -/
 
@@ -48,8 +47,8 @@ theorem deployC_get (c : Bucket Addr Contract) (b : Nat) (l : List (Addr × CHas
       | none => bget c a := by
   unfold deployC
   have := foldl_pointwise (M := Bucket Addr Contract) (γ := CHash) bget id (fun _ _ h => h)
-    (fun _ _ ch => some ⟨0, ch, b⟩) (fun c p => bset c p.1 (some ⟨0, p.2, b⟩))
-    (by intro m p y; rw [bget_bset]; constructor <;> intro h <;> simp_all) l hnd c a
+    (fun _ _ ch => some ⟨0, ch, b⟩) (fun c p => bset c p.1 (some ⟨0, p.2, b⟩)) l
+    (by intro m p _ y; rw [bget_bset]; constructor <;> intro h <;> simp_all) hnd c a
   revert this; cases alook l a <;> intro this <;> simpa using this
 
 theorem setClassC_get (c : Bucket Addr Contract) (l : List (Addr × CHash))
@@ -60,13 +59,13 @@ theorem setClassC_get (c : Bucket Addr Contract) (l : List (Addr × CHash))
   unfold setClassC
   have := foldl_pointwise (M := Bucket Addr Contract) (γ := CHash) bget id (fun _ _ h => h)
     (fun _ o ch => o.map (fun x => { x with classHash := ch }))
-    setClassStep
+    setClassStep l
     (by
-      intro m p y
+      intro m p _ y
       unfold setClassStep
       cases hb : bget m p.1 with
       | none => constructor <;> intro h <;> simp_all
-      | some x => simp only [bget_bset]; constructor <;> intro h <;> simp_all) l hnd c a
+      | some x => simp only [bget_bset]; constructor <;> intro h <;> simp_all) hnd c a
   revert this; cases alook l a <;> intro this <;> simpa using this
 
 theorem setNonceC_get (c : Bucket Addr Contract) (l : List (Addr × Val))
@@ -77,13 +76,13 @@ theorem setNonceC_get (c : Bucket Addr Contract) (l : List (Addr × Val))
   unfold setNonceC
   have := foldl_pointwise (M := Bucket Addr Contract) (γ := Val) bget id (fun _ _ h => h)
     (fun _ o v => o.map (fun x => { x with nonce := v }))
-    setNonceStep
+    setNonceStep l
     (by
-      intro m p y
+      intro m p _ y
       unfold setNonceStep
       cases hb : bget m p.1 with
       | none => constructor <;> intro h <;> simp_all
-      | some x => simp only [bget_bset]; constructor <;> intro h <;> simp_all) l hnd c a
+      | some x => simp only [bget_bset]; constructor <;> intro h <;> simp_all) hnd c a
   revert this; cases alook l a <;> intro this <;> simpa using this
 
 theorem sysCreateStep_get (b : Nat) (c : Bucket Addr Contract) (x a : Addr) :
@@ -189,5 +188,134 @@ theorem undeclareFold_get (m : Bucket CHash Nat) (b : Nat) (cs : List CHash) (c 
     by_cases hx : bget m x = some b
     · simp only [hx, if_true, bget_bset]; grind
     · simp only [hx, if_false]; grind
+
+
+/-! ### storage tries -/
+
+theorem foldl_fst_tput (cfg : Cfg) (l : List (Slot × Val)) (acc : Leaves × Leaves) :
+    (l.foldl (fun (acc : Leaves × Leaves) (e : Slot × Val) =>
+      let present := (alook acc.1 e.1).isSome
+      let lv' :=
+        if e.2 = 0 then
+          if present then
+            if !cfg.leafFix && (alook acc.1 (sib e.1)).isSome then acc.2 else tdel acc.2 e.1
+          else acc.2
+        else tput acc.2 e.1 e.2
+      (tput acc.1 e.1 e.2, lv')) acc).1 = l.foldl (fun t e => tput t e.1 e.2) acc.1 := by
+  induction l generalizing acc with
+  | nil => rfl
+  | cons e r ih => simp only [List.foldl_cons]; rw [ih]
+
+theorem foldl_tput_get (l : List (Slot × Val)) (hnd : (l.map (·.1)).Nodup) (t : Leaves) (k : Slot) :
+    tget (l.foldl (fun t e => tput t e.1 e.2) t) k = (alook l k).getD (tget t k) := by
+  have := foldl_pointwise (M := Leaves) (γ := Val) tget id (fun _ _ h => h) (fun _ _ v => v)
+    (fun t e => tput t e.1 e.2) l
+    (by intro m p _ y; rw [tget_tput]; constructor <;> intro h <;> simp_all) hnd t k
+  revert this; cases alook l k <;> intro this <;> simpa using this
+
+theorem foldl_tput_noZero (l : List (Slot × Val)) (t : Leaves) (h : NoZero t) :
+    NoZero (l.foldl (fun t e => tput t e.1 e.2) t) := by
+  induction l generalizing t with
+  | nil => exact h
+  | cons e r ih => exact ih _ (noZero_tput t e.1 e.2 h)
+
+theorem alook_perm {β : Type} (l1 l2 : List (Nat × β)) (hp : l1.Perm l2) (hnd : (l2.map (·.1)).Nodup) (k : Nat) :
+    alook l1 k = alook l2 k := by
+  have hnd1 : (l1.map (·.1)).Nodup := (hp.map (·.1)).nodup_iff.mpr hnd
+  cases h : alook l2 k with
+  | some v =>
+    exact alook_eq_some_of_mem l1 k v hnd1 (hp.mem_iff.mpr (mem_of_alook_eq_some l2 k v h))
+  | none =>
+    apply (alook_eq_none_iff l1 k).mpr
+    intro hm
+    exact (alook_eq_none_iff l2 k).mp h ((hp.map (·.1)).mem_iff.mp hm)
+
+theorem tdel_absent (t : Leaves) (k : Slot) (h : (alook t k).isSome = false) : tdel t k = t := by
+  unfold tdel
+  apply List.filter_eq_self.mpr
+  intro p hp
+  have hk : k ∉ t.map (·.1) := by
+    intro hm
+    have := (alook_isSome_iff t k).mpr hm
+    simp [h] at this
+  simp only [bne_iff_ne, ne_eq]
+  intro e
+  exact hk (List.mem_map.mpr ⟨p, hp, e⟩)
+
+/-- `stateObject.commit` of one contract -/
+theorem applySlots_spec (cfg : Cfg) (t lv : Leaves) (slots : List (Slot × Val))
+    (hnd : (slots.map (·.1)).Nodup) (hz : NoZero t) :
+    (∀ k, tget (applySlots cfg t lv slots).1 k = (alook slots k).getD (tget t k)) ∧
+    NoZero (applySlots cfg t lv slots).1 ∧
+    (cfg.leafFix = true → lv = t → (applySlots cfg t lv slots).2 = (applySlots cfg t lv slots).1) := by
+  have hperm := List.mergeSort_perm slots (fun x y => decide (y.1 ≤ x.1))
+  have hnd' : ((slots.mergeSort (fun x y => decide (y.1 ≤ x.1))).map (·.1)).Nodup :=
+    (hperm.map (·.1)).nodup_iff.mpr hnd
+  refine ⟨?_, ?_, ?_⟩
+  · intro k
+    unfold applySlots
+    rw [foldl_fst_tput, foldl_tput_get _ hnd', alook_perm _ _ hperm hnd]
+  · unfold applySlots
+    rw [foldl_fst_tput]
+    exact foldl_tput_noZero _ _ hz
+  · intro hfix heq
+    unfold applySlots
+    generalize slots.mergeSort (fun x y => decide (y.1 ≤ x.1)) = l
+    subst heq
+    have : ∀ (l : List (Slot × Val)) (acc : Leaves × Leaves), acc.2 = acc.1 →
+        (l.foldl (fun (acc : Leaves × Leaves) (e : Slot × Val) =>
+          let present := (alook acc.1 e.1).isSome
+          let lv' :=
+            if e.2 = 0 then
+              if present then
+                if !cfg.leafFix && (alook acc.1 (sib e.1)).isSome then acc.2 else tdel acc.2 e.1
+              else acc.2
+            else tput acc.2 e.1 e.2
+          (tput acc.1 e.1 e.2, lv')) acc).2 =
+        (l.foldl (fun (acc : Leaves × Leaves) (e : Slot × Val) =>
+          let present := (alook acc.1 e.1).isSome
+          let lv' :=
+            if e.2 = 0 then
+              if present then
+                if !cfg.leafFix && (alook acc.1 (sib e.1)).isSome then acc.2 else tdel acc.2 e.1
+              else acc.2
+            else tput acc.2 e.1 e.2
+          (tput acc.1 e.1 e.2, lv')) acc).1 := by
+      intro l
+      induction l with
+      | nil => intro acc h; exact h
+      | cons e r ih =>
+        intro acc h
+        simp only [List.foldl_cons]
+        apply ih
+        simp only [hfix, Bool.not_true, Bool.false_and, Bool.false_eq_true, if_false]
+        by_cases hv : e.2 = 0
+        · simp only [hv, if_true, tput]
+          by_cases hp : (alook acc.1 e.1).isSome = true
+          · simp [hp, h]
+          · simp only [hp, Bool.false_eq_true, if_false]
+            rw [h, tdel_absent _ _ (by simpa using hp)]
+        · simp [hv, h]
+    exact this l (lv, lv) rfl
+
+/-- the storage part of `commit`, pointwise -/
+theorem writeSlots_get (cfg : Cfg) (tl : Bucket Addr Leaves × Bucket Addr Leaves)
+    (l : List (Addr × List (Slot × Val))) (hnd : (l.map (·.1)).Nodup) (a : Addr) :
+    (lget (writeSlots cfg tl l).1 a, lget (writeSlots cfg tl l).2 a) =
+      match alook l a with
+      | some slots => applySlots cfg (lget tl.1 a) (lget tl.2 a) slots
+      | none => (lget tl.1 a, lget tl.2 a) := by
+  unfold writeSlots
+  have := foldl_pointwise (M := Bucket Addr Leaves × Bucket Addr Leaves) (γ := List (Slot × Val))
+    (fun tl a => (lget tl.1 a, lget tl.2 a)) id (fun _ _ h => h)
+    (fun _ r slots => applySlots cfg r.1 r.2 slots)
+    (fun tl p =>
+      let r := applySlots cfg (lget tl.1 p.1) (lget tl.2 p.1) p.2
+      (lset tl.1 p.1 r.1, lset tl.2 p.1 r.2)) l
+    (by
+      intro m p _ y
+      simp only [lget_lset]
+      constructor <;> intro h <;> simp_all) hnd tl a
+  revert this; cases alook l a <;> intro this <;> simpa using this
 
 end Juno.C03
